@@ -39,10 +39,24 @@ STYLES = [
 CONFORMING_STYLES = {"conforming", "semicolons", "shift1", "shift3", "crlf", "trailing-comments"}
 
 
+def all_roots():
+    """C12's roots plus one that imports TWO files (positions inside the second import)."""
+    from collections import OrderedDict
+    ids = sym.Ids()
+    e = sym.enum(ids, "Mode", 2, [("MODE_OFF", 0), ("MODE_ON", 1)])
+    fa = [sym.const(ids, "FIRST_K", 3), e, sym.msg(ids, "Filler", False, [sym.field(("bool",), "a", 1), sym.field(("bool",), "b", 2), sym.field(("bool",), "c", 3)])]
+    p2 = sym.msg(ids, "Point", False, [sym.field(("int", 7), "x", 1), sym.field(("int", 7), "y", 2)])
+    k2 = sym.const(ids, "WIDTH", 2)
+    box = sym.msg(ids, "Box", False, [sym.field(("ref", p2["id"]), "corner", 1), sym.field(sym.arr(("ref", p2["id"]), 2, False, k2["id"], "{K}"), "pts", 2)])
+    m = sym.msg(ids, c12.ROOT_MSG, False, [sym.field(("ref", e["id"]), "mode", 1), sym.field(("ref", box["id"]), "box", 2), sym.field(("ref", p2["id"]), "at", 3)])
+    two = sym.schema([m], libs=OrderedDict([("firstlib", (None, fa)), ("secondlib", ("sl", [k2, p2, box]))]))
+    return c12.roots() + [("import2", two)]
+
+
 def variants(tier):
     """(root index, perturbation or None, comments?, style index, first_line_def?)"""
     out = []
-    roots = c12.roots()
+    roots = all_roots()
     for ri, (rname, root) in enumerate(roots):
         for si, (sname, st) in enumerate(STYLES):
             for comments in (False, True):
@@ -139,7 +153,7 @@ def run_unit(unit):
     bind.bind()
     from bitproto.parser import parse
     vs = variants(tier)[lo:hi]
-    roots = c12.roots()
+    roots = all_roots()
     out = UnitOut()
     with Scratch() as sc:
         for k, v in enumerate(vs):
@@ -240,8 +254,25 @@ def run_unit(unit):
             if refs != mrefs:
                 bad = [x for x in refs if x not in mrefs][:3]
                 mism.append(("references", bad, [x for x in mrefs if x not in refs][:3], None))
+            # definitions and references inside every imported file, against that file's own source map
+            for iname, child in parsed.protos(recursive=True):
+                cfn = os.path.basename(child.filepath)
+                if cfn not in maps:
+                    continue
+                ctext, cmap = maps[cfn]
+                for p, line, col, token in def_positions(child):
+                    m = cmap.defs.get(tuple(p))
+                    if m is None:
+                        continue
+                    out.count("positions")
+                    if line != m["line"] or (base is not None and line >= 2 and col - m["col"] != base):
+                        mism.append(("imported-file:" + cfn, p, (line, col), (m["line"], m["col"] + (base or 0))))
+                crefs = sorted((r.lineno, r.token_col_start, r.token) for r in child.references if os.path.basename(r.filepath) == cfn)
+                cmrefs = sorted((r["line"], r["col"] + (base or 0), r["token"]) for r in cmap.refs)
+                if crefs != cmrefs:
+                    mism.append(("imported-file-references:" + cfn, [x for x in crefs if x not in cmrefs][:3], [x for x in cmrefs if x not in crefs][:3], None))
             if mism:
-                kinds = sorted(set(m[0] for m in mism))
+                kinds = sorted(set(m[0].split(":")[0] for m in mism))
                 viol("position", "wrong_position:" + "+".join(kinds), "recorded vs source map: %r" % (mism[:4],), "compiler/bitproto/parser.py:_get_col")
             if k % 40 == 0:
                 out.sample(dict(root=rname, style=sname, perturbation=pert and [pert[0], pert[3]], warnings=got[:3], definitions=len(smap.defs), references=len(refs)))
@@ -313,7 +344,7 @@ def run_cli(unit):
     """(5) check-only mode exits non-zero exactly when there is an error or at least one warning."""
     out = UnitOut()
     env = dict(os.environ, PYTHONPATH=bind.COMPILER_DIR)
-    roots = c12.roots()
+    roots = all_roots()
     cases = []
     for ri in (0, 1, 2, 5):
         cases.append((ri, None, False, 0, False, "clean", 0))
